@@ -31,18 +31,26 @@ type ringObj interface {
 	Len() int
 	Cap() int
 	NonZeroSlots() int // number of slots of the backing array holding a non-zero value
+	// Pos: length of the backing array and the physical read/write indices; used ONLY to choose arguments that land on
+	// physical boundaries, never to judge a reply
+	Pos() (int, int, int)
 }
+
+func (x *ringInt) Pos() (int, int, int) { return x.pos() }
+func (x *ringPtr) Pos() (int, int, int) { return x.pos() }
 
 type ringInt struct {
 	r interface {
 		container.RingBuffer[int]
 	}
 	raw func() []int
+	pos func() (int, int, int)
 }
 
 func newRingInt(c int) ringObj {
 	rb := container.NewRingBuffer[int](uint(c))
-	return &ringInt{r: rb, raw: func() []int { b, _, _ := container.VerifRingRaw(rb); return b }}
+	return &ringInt{r: rb, raw: func() []int { b, _, _ := container.VerifRingRaw(rb); return b },
+		pos: func() (int, int, int) { b, r, w := container.VerifRingRaw(rb); return len(b), r, w }}
 }
 func (x *ringInt) Write(v int) error  { return x.r.Write(v) }
 func (x *ringInt) Read() (int, error) { return x.r.Read() }
@@ -65,11 +73,13 @@ func (x *ringInt) NonZeroSlots() int {
 type ringPtr struct {
 	r   container.RingBuffer[*int]
 	raw func() []*int
+	pos func() (int, int, int)
 }
 
 func newRingPtr(c int) ringObj {
 	rb := container.NewRingBuffer[*int](uint(c))
-	return &ringPtr{r: rb, raw: func() []*int { b, _, _ := container.VerifRingRaw(rb); return b }}
+	return &ringPtr{r: rb, raw: func() []*int { b, _, _ := container.VerifRingRaw(rb); return b },
+		pos: func() (int, int, int) { b, r, w := container.VerifRingRaw(rb); return len(b), r, w }}
 }
 func deref(p *int) int {
 	if p == nil {
@@ -225,6 +235,9 @@ func replayRing(b Behaviour, opt *Options) *Failure {
 // ReadN/Skip arguments and records every call with its real reply; TLC then
 // decides whether each trace is a behaviour of RingBuffer.tla (RingTrace.tla).
 func driveRing(opt *Options) error {
+	if opt.Extra["mode"] == "big" {
+		return driveRingBig(opt)
+	}
 	tw, err := NewTraceWriter(opt.Out)
 	if err != nil {
 		return err
